@@ -1,5 +1,5 @@
 (* C18 - Diagnostics never disclose credentials. *)
-From MQ Require Import Model.Render Proofs.BytesP Proofs.RenderP.
+From MQ Require Import Model.Render Proofs.BytesP Proofs.RenderP Model.AccIR Model.DumpIR Proofs.DumpP gen.GenAcc gen.SyncAcc gen.GenDump gen.SyncDump.
 From Coq Require Import List. Import ListNotations. Open Scope N_scope.
 
 (* cred_rel p p': every field, list and the will of the two CONNECT
@@ -32,3 +32,23 @@ Example C18_example :
   dump_toks KConnect (mk [x61; x62] [x31]) = dump_toks KConnect (mk [x7a; x7a] [x39])
   /\ string_toks KConnect (mk [x61; x62] [x31]) = string_toks KConnect (mk [x7a; x7a] [x39]) -> True.
 Proof. intros; exact I. Qed.
+
+(* dump_toks is the dump method of the source: tools/gosync (acc.go)
+   translates the statements of every packet type's dump(w) - lines
+   `fmt.Fprintf(w, "Label: %v\n", p.Accessor())`, the masked credentials
+   `stars(len(p.Password()))`, the will block, the filter loop, the user
+   properties - into item lists, and every one-line accessor into an
+   accessor term with its Go result type; the regenerated lists and tables
+   are those of Model/DumpIR.v and Model/AccIR.v, and their interpretation
+   (fmt's rendering by verb and type) is dump_toks, for every type and
+   packet.  So C18_dump above is about what CONNECT's dump method says now:
+   the two credential lines go through stars(len(...)). *)
+Theorem C18_dump_is_the_source :
+  g_dump_Connect = dump_ir KConnect /\ g_dump_Publish = dump_ir KPublish /\
+  g_acc_table = acc_table /\ g_acc_rtypes = acc_rtypes /\
+  forall k p, run_dump k p = dump_toks k p.
+Proof.
+  exact (conj sync_dump_Connect (conj sync_dump_Publish (conj sync_acc_table
+        (conj sync_acc_rtypes run_dump_is_dump_toks)))).
+Qed.
+Print Assumptions C18_dump_is_the_source.
